@@ -113,7 +113,49 @@ func runC16(p *P, r *R) {
 				return false
 			}
 			usedException := false
+			// a helper of this function (same receiver, called from nowhere else) whose every error exit has undone the
+			// state (or is the listed exception): the caller's `if err != nil { return err }` after it needs no undo
+			undoneOnError := func(g *ssa.Function) bool {
+				okg, _ := p.findBadPath(g, []Point{{g.Blocks[0], -1}}, pathOpts{
+					Discharge: func(i2 ssa.Instruction) bool { return undo.F(i2) },
+					Bad: func(i2 ssa.Instruction) bool {
+						ret, isRet := i2.(*ssa.Return)
+						if !isRet || !isErrorExit(ret) {
+							return false
+						}
+						if exception(ret) {
+							usedException = true
+							return false
+						}
+						return true
+					},
+				})
+				return okg
+			}
+			fam := p.family(f)
 			okp, res := p.findBadPath(f, []Point{pointOf(st)}, pathOpts{
+				EdgeOK: func(b *ssa.BasicBlock, i int) bool {
+					ifi := blockIf(b)
+					if ifi == nil {
+						return true
+					}
+					for _, g := range fam {
+						if g == f {
+							continue
+						}
+						isErrOfG := func(v ssa.Value) bool {
+							if e, ok := v.(*ssa.Extract); ok {
+								v = e.Tuple
+							}
+							c, ok := v.(*ssa.Call)
+							return ok && c.Call.StaticCallee() == g
+						}
+						if relOn(ifi.Cond, i == 0, isErrOfG, isNilConst) == "!=" && undoneOnError(g) {
+							return false
+						}
+					}
+					return true
+				},
 				Discharge: func(i2 ssa.Instruction) bool { return spawn(i2) || undo.F(i2) },
 				Bad: func(i2 ssa.Instruction) bool {
 					ret, isRet := i2.(*ssa.Return)
